@@ -248,8 +248,8 @@ func runC12(c *engine.Ctx) {
 	streamHdr := func(decoded int) [][2]string {
 		return drv.H("X-Amz-Content-Sha256", "STREAMING-AWS4-HMAC-SHA256-PAYLOAD", "X-Amz-Decoded-Content-Length", strconv.Itoa(decoded))
 	}
-	newW := func(k drv.Kind) *drv.World {
-		w, err := drv.NewWorld(drv.Config{Kind: k})
+	newWCfg := func(k drv.Kind, noIntegrity bool) *drv.World {
+		w, err := drv.NewWorld(drv.Config{Kind: k, NoIntegrity: noIntegrity})
 		if err != nil {
 			engine.HarnessError("C12: %v", err)
 		}
@@ -258,6 +258,7 @@ func runC12(c *engine.Ctx) {
 		}
 		return w
 	}
+	newW := func(k drv.Kind) *drv.World { return newWCfg(k, false) }
 	engine.ParallelFor(len(hcases), func(_, i int) {
 		hc := hcases[i]
 		payload := mkPayload(hc.payload)
@@ -474,7 +475,8 @@ func runC12(c *engine.Ctx) {
 			kind    drv.Kind
 			n, cz   int
 			every   int
-			decoded int // declared decoded length relative to n: 0 exact, +1, -1
+			decoded int  // declared decoded length relative to n: 0 exact, +1, -1
+			noInteg bool // server built WithIntegrityCheck(false): the framing is decoded all the same
 		}
 		var pcs []pcase
 		for _, k := range kinds {
@@ -487,15 +489,18 @@ func runC12(c *engine.Ctx) {
 						if n > 2000 && ev == 1 {
 							continue
 						}
-						pcs = append(pcs, pcase{k, n, cz, ev, 0})
+						pcs = append(pcs, pcase{k, n, cz, ev, 0, false})
+						if ev == 0 && cz == 3 {
+							pcs = append(pcs, pcase{k, n, cz, ev, 0, true})
+						}
 					}
 				}
 			}
-			pcs = append(pcs, pcase{k, 20, 10, 0, +1}, pcase{k, 20, 10, 0, -1})
+			pcs = append(pcs, pcase{k, 20, 10, 0, +1, false}, pcase{k, 20, 10, 0, -1, false}, pcase{k, 20, 10, 0, +1, true})
 		}
 		engine.ParallelFor(len(pcs), func(_, i int) {
 			pc := pcs[i]
-			w := newW(pc.kind)
+			w := newWCfg(pc.kind, pc.noInteg)
 			defer w.Close()
 			payload := mkPayload(pc.n)
 			enc := drv.EncodeChunked(payload, split(pc.n, pc.cz))
@@ -509,7 +514,7 @@ func runC12(c *engine.Ctx) {
 			}
 			rp := w.Do(drv.Req{Method: "PUT", Path: "/aaa/mp", Query: drv.Q("uploadId", id, "partNumber", "1"), BodyReader: drv.NewFrag(enc, nil, pc.every, false), DeclLen: ptr64(int64(len(enc))), Header: streamHdr(pc.n + pc.decoded)})
 			c.Add(0, 1, 1, 1)
-			hist := []string{fmt.Sprintf("%s part upload: payload %d bytes, chunks of %d, reads of %d, declared %+d", pc.kind, pc.n, pc.cz, pc.every, pc.decoded)}
+			hist := []string{fmt.Sprintf("%s part upload: payload %d bytes, chunks of %d, reads of %d, declared %+d, integrity-check-off=%v", pc.kind, pc.n, pc.cz, pc.every, pc.decoded, pc.noInteg)}
 			report := func(field, msg string) {
 				c.Report(&engine.Violation{Sig: sig("C12", "any", "streaming-part", field), World: string(pc.kind), History: hist, Msg: hist[0] + ": " + msg})
 			}
